@@ -43,6 +43,7 @@ type dgram struct {
 type scenario struct {
 	On  int     `json:"on"`
 	Seq []dgram `json:"seq"`
+	Mut int     `json:"mut"` // number of seeded byte-level mutants processed after the sequence
 }
 
 var (
@@ -414,6 +415,49 @@ func main() {
 				} else {
 					ev["k"] = "reply"
 					ev["reply"] = describeReply(out, b, d)
+				}
+			}()
+			w.Emit(ev)
+		}
+		// byte-level mutants of the sequence's datagrams on the same server: the abstract class of a mutant is
+		// unknown, only its next hop is observed
+		for i := 0; i < sc.Mut && len(sc.Seq) > 0; i++ {
+			d := sc.Seq[r.Intn(len(sc.Seq))]
+			b := build(d, r)
+			raw := append([]byte(nil), b.raw...)
+			switch r.Intn(4) {
+			case 0:
+				raw = raw[:r.Intn(len(raw)+1)]
+			case 1: // header bytes (common + address header)
+				for k := 0; k < 1+r.Intn(3); k++ {
+					raw[r.Intn(min(len(raw), 48))] ^= byte(1 << r.Intn(8))
+				}
+			default:
+				for k := 0; k < 1+r.Intn(4); k++ {
+					raw[r.Intn(len(raw))] = byte(r.Intn(256))
+				}
+			}
+			ev := vt.M{"ev": "mut", "outer": d.Outer, "k": "drop", "host": "-", "port": 0, "panic": 0}
+			func() {
+				defer func() {
+					if e := recover(); e != nil {
+						ev["panic"] = 1
+					}
+				}()
+				in := append([]byte(nil), raw...)
+				out, nh, _ := srv.VerifProcessMsgNextHop(in, b.outer, prevHop)
+				if !nh.IsValid() {
+					return
+				}
+				ev["host"] = hostID(nh.Addr(), b.v6)
+				if nh.Addr().Unmap() == b.outer.Unmap() {
+					ev["host"] = d.Outer
+				}
+				ev["port"] = int(nh.Port())
+				if bytes.Equal(out, raw) {
+					ev["k"] = "fwd"
+				} else {
+					ev["k"] = "reply"
 				}
 			}()
 			w.Emit(ev)
